@@ -150,8 +150,20 @@ func runC16Overlap(r *simkit.Run) {
 	if tp.Chance(1, 2) {
 		lens[tp.Draw(3)] = []int{70000, 140000, 1100000}[tp.Draw(3)]
 	}
-	r.Sample = map[string]any{"mode": "overlap", "client_compression": algo, "handler_closes_body": closes, "earlier_requests": nPre, "body_lens": lens}
-	r.Logf("overlap algo=%q closes=%v earlier=%d lens=%v", algo, closes, nPre, lens)
+	// early answer: one more request E with a body too large for the socket buffers, whose handler answers after the
+	// first kilobyte (full duplex) and reads the rest only when every other request of the run is over. Its client call
+	// has returned by then, the transport is still sending its body: whatever the client side recycles when the call
+	// returns must not be what the transport still reads from.
+	early := algo != "" && tp.Chance(1, 2)
+	earlyLen := 0
+	if early {
+		earlyLen = []int{6 << 20, 12 << 20}[tp.Draw(2)]
+		if nPre == 0 {
+			nPre = 1
+		}
+	}
+	r.Sample = map[string]any{"mode": "overlap", "client_compression": algo, "handler_closes_body": closes, "earlier_requests": nPre, "body_lens": lens, "early_answered_request_body_len": earlyLen}
+	r.Logf("overlap algo=%q closes=%v earlier=%d lens=%v early=%d", algo, closes, nPre, lens, earlyLen)
 	r.Count("probe.overlapping_requests")
 	// Whatever earlier runs of this process left in sync.Pools of the middleware is dropped (two collections empty every
 	// sync.Pool): the run then depends only on its own requests and can be replayed in a fresh process.
@@ -165,10 +177,38 @@ func runC16Overlap(r *simkit.Run) {
 	reads := map[string]*seen{}
 	arrived := make(chan struct{}, 3)
 	release := make(chan struct{})
+	eAnswered := make(chan struct{})
+	eRelease := make(chan struct{})
+	eDone := make(chan struct{})
 	handler := http.HandlerFunc(func(w http.ResponseWriter, req *http.Request) {
 		id := req.Header.Get("X-Sim-Req")
 		var mine []byte
 		var myErr error
+		if id == "E" {
+			defer close(eDone)
+			_ = http.NewResponseController(w).EnableFullDuplex()
+			head := make([]byte, 1024)
+			n, err := io.ReadFull(req.Body, head)
+			mine = append(mine, head[:n]...)
+			if err == nil {
+				w.WriteHeader(http.StatusOK)
+				_ = http.NewResponseController(w).Flush()
+				close(eAnswered)
+				select {
+				case <-eRelease:
+				case <-time.After(15 * time.Second):
+				}
+				var rest []byte
+				rest, err = io.ReadAll(req.Body)
+				mine = append(mine, rest...)
+			} else {
+				close(eAnswered)
+			}
+			mu.Lock()
+			reads[id] = &seen{got: mine, err: err}
+			mu.Unlock()
+			return
+		}
 		buf := make([]byte, 512)
 		barrier := id == "A" || id == "B" || id == "C"
 		for {
@@ -255,6 +295,30 @@ func runC16Overlap(r *simkit.Run) {
 	infra := func(err error) bool {
 		return err != nil && (strings.Contains(err.Error(), "cannot assign requested address") || strings.Contains(err.Error(), "address already in use"))
 	}
+	var bodyE []byte
+	var respE *http.Response
+	if early {
+		r.Count("probe.request_answered_before_its_body_was_sent")
+		bodyE = makeBody(tp, "random", earlyLen)
+		req, err := http.NewRequest(http.MethodPost, cc.Endpoint+"/", bytes.NewReader(bodyE))
+		if err != nil {
+			panic(err)
+		}
+		req.Header.Set("X-Sim-Req", "E")
+		req.Header.Set("Content-Type", "application/octet-stream")
+		respE, err = client.Do(req)
+		if infra(err) {
+			r.Count("probe.infra_socket_unavailable")
+			time.Sleep(200 * time.Millisecond)
+			return
+		}
+		if err != nil {
+			r.Failf("content", "early-answer/request-failed/"+algoName(algo), "request E (%d bytes, %s), answered by its handler after the first kilobyte, failed: %v", len(bodyE), algoName(algo), sanitize(err, port))
+			return
+		}
+		<-eAnswered
+		simkit.Beat()
+	}
 	for i := 0; i < nPre; i++ {
 		if _, err := post(fmt.Sprint("pre", i), makeBody(tp, "text", tp.Range(1200, 5000))); infra(err) {
 			r.Count("probe.infra_socket_unavailable")
@@ -291,6 +355,26 @@ func runC16Overlap(r *simkit.Run) {
 		x := <-out
 		results[x.id] = x
 		simkit.Beat()
+	}
+	if early {
+		close(eRelease)
+		select {
+		case <-eDone:
+		case <-time.After(20 * time.Second):
+		}
+		_, _ = io.Copy(io.Discard, respE.Body)
+		_ = respE.Body.Close()
+		simkit.Beat()
+		mu.Lock()
+		sn := reads["E"]
+		mu.Unlock()
+		switch {
+		case sn == nil:
+			r.Failf("content", "early-answer/handler-not-finished/"+algoName(algo), "the handler of request E (%d bytes, %s) did not finish reading its body", len(bodyE), algoName(algo))
+		case sn.err != nil || !bytes.Equal(sn.got, bodyE):
+			r.Failf("content", "early-answer/round-trip/"+algoName(algo), "request E was answered after its first kilobyte and its handler read the rest after %d later requests through the same client: it read %d bytes (err=%v), its client was given %d bytes (%s)", nPre+3, len(sn.got), sn.err, len(bodyE), algoName(algo))
+		}
+		r.Events++
 	}
 	_ = srv.Close()
 	<-done
@@ -664,6 +748,10 @@ func (d *dataEOFReader) Read(p []byte) (int, error) {
 
 func runC16(r *simkit.Run) {
 	tp := r.Tape
+	// every run starts with empty sync.Pools (two collections): what a run observes depends on its own requests only,
+	// never on what earlier runs of the same worker process left in package-level pools of the middleware
+	runtime.GC()
+	runtime.GC()
 	if tp.Chance(1, 6) {
 		runC16Overlap(r)
 		return
@@ -1006,5 +1094,5 @@ var HarnessC16 = simkit.Harness{
 	Prop: "C16", Name: "svc/c16", Run: runC16, NoBubble: true, StepTimeout: 60e9, RateLimit: 40,
 	Real: []string{"confighttp.ClientConfig.ToClient (compression round-tripper, every algorithm and level)", "confighttp.ServerConfig.ToServer (decompressor, max-body interceptors, enabled-decoder list)", "net/http client and server over kernel loopback TCP"},
 	Stub: []string{"listener wrapper owned by the simulator: the server's reads are cut into tape-drawn chunk sizes (1 B .. 64 KiB) and optionally fail after N bytes (never a sleep)", "innermost handler reading with a tape-drawn buffer size"},
-	Rule: "one run = (1 run in 6) overlap mode: 0-4 earlier requests, then two requests whose handlers are held in the middle of their bodies until both got there, through one server and one client, handler optionally closing the body itself, every handler must read its own bytes; otherwise one request: tape-drawn algorithm (none, gzip, zlib, deflate, zstd, snappy, lz4) and level, enabled-decoder list (default or custom), max_request_body_size (default, 1, 100, 1000, 4096, 65536, 70000), body (zeros / text / incompressible; empty, tiny, limit-1, limit, limit+1, codec block sizes, bombs of 2-8x the limit), server read chunk size, optional truncation of the stream, handler buffer size; runs outside the synctest bubble on real loopback sockets (real time, no virtual clock: the property does not depend on timing; one request at a time); distinct = distinct event-log hash; non-trivial = a compressed or truncated request",
+	Rule: "one run = (1 run in 6) overlap mode: 0-4 earlier requests, then three requests whose handlers are held in the middle of their bodies until all got there, through one server and one client, handler optionally closing the body itself, every handler must read its own bytes; in half of these runs one more request of 6 or 12 MB is answered by its (full-duplex) handler after the first kilobyte and read to the end only after all the others, while its client call has long returned; otherwise one request: tape-drawn algorithm (none, gzip, zlib, deflate, zstd, snappy, lz4) and level, enabled-decoder list (default or custom), max_request_body_size (default, 1, 100, 1000, 4096, 65536, 70000), body (zeros / text / incompressible; empty, tiny, limit-1, limit, limit+1, codec block sizes, bombs of 2-8x the limit), server read chunk size, optional truncation of the stream, handler buffer size; runs outside the synctest bubble on real loopback sockets (real time, no virtual clock: the property does not depend on timing; one request at a time); distinct = distinct event-log hash; non-trivial = a compressed or truncated request",
 }
